@@ -37,6 +37,24 @@ Beyond one run() over plug-in / unplug / recompute events the scenarios have thr
    test says: nothing the Interface hands out may be older than the last edit (model: `Sim.infraInfoAt`,
    AcnModel/NetEdits.lean; prices and estimated departures: oracle only).
 
+Three further dimensions (session 4):
+ * `interrupt` = {"at": [k…], "how": "rerun" | "json"}: the scheduler RAISES when it is entered in period k (event periods,
+   timer periods, period 0 before anything was ever scheduled, quiet periods = never fires, the last period); the harness
+   then calls run() AGAIN on the same object, or writes the simulator with to_json(), loads it with Simulator.from_json(),
+   hands the loaded simulator the SAME algorithm object (update_scheduler) and run()s it.  The invocation periods of the
+   COMPLETED simulation must be exactly the required ones with the raising period invoked again on resume (once), the
+   recompute request of an event period (`_resolve`, `_last_schedule_update`) must survive the abort and the save / load,
+   and every view after the resume must be the true one (ground truth of the LOADED simulator, the final trajectory, and
+   the views of an UNINTERRUPTED twin run of the same case).  Model: `Sim.runResume` (AcnModel/SimResume.lean).
+ * `step_prefix` = {"scheds": [<sched>…], "json": bool}: the simulation is driven by Simulator.step(sched) for a prefix
+   (one call per entry), then (optionally after a JSON round trip) continued with run().  The step() contract — the
+   schedule answers the pending recompute request, the call advances to the next period in which a recompute is due (the
+   next event period; exactly one period for max_recompute <= 1), returns event_queue.empty() — and the invocation periods
+   of the following run() are judged by the oracle; model: `Sim.stepsThenRun`.
+ * `vandal` = "methods": the vandal uses ONLY state-changing METHODS of the deprecated `active_evs` copies and of their
+   batteries (ev.charge what-if, ev.reset, battery.charge, battery.reset) — no attribute assignment: the copies must not
+   share the battery with the real EV.
+
 `Interface.get_constraints()` returns the network's live arrays BY DESIGN (DESIGN §8) — not attacked, but READ at
 every invocation and judged like the InfrastructureInfo.
 `Interface.infrastructure_info()` used to raise on a constraint-free network (defect F3, property C06,
@@ -53,6 +71,7 @@ from datetime import timedelta
 import numpy as np
 
 from acnportal.acnsim.network.current import Current
+from acnportal.acnsim.network.charging_network import ChargingNetwork
 from acnportal.acnsim.simulator import Simulator
 from acnportal.acnsim.events import Event, EventQueue, PluginEvent, RecomputeEvent
 
@@ -194,7 +213,12 @@ def _truth(sim, ctx, light=False):
            "queue_min": min(q) if q else None, "hist_max": max(hist) if hist else None, "hist_len": len(hist),
            "connected": [(e._ev._session_id if e._ev is not None else None) for e in evses],
            "connected_remaining": [(_f(e._ev._requested_energy - e._ev._energy_delivered) if e._ev is not None else None)
-                                   for e in evses]}
+                                   for e in evses],
+           "connected_batt": [([_f(e._ev._battery._current_charge), _f(e._ev._battery._current_charging_power),
+                                _f(e._ev._battery._capacity), _f(e._ev._energy_delivered)] if e._ev is not None else None)
+                              for e in evses],
+           "resolve": bool(sim._resolve),
+           "last_upd": None if sim._last_schedule_update is None else int(sim._last_schedule_update)}
     if True:
         # a constraint-free network is described by a 0 x N view (defect F3, repaired in /repo)
         cm = net.constraint_matrix
@@ -375,7 +399,31 @@ def _vandalise_infra(info):
             pass
 
 
-def _vandalise(algo, iface, sessions, schedule):
+def _vandalise_methods(iface):
+    """ONLY state-changing METHODS of the deprecated active_evs copies and of their batteries (a what-if charge, a reset,
+    the battery's own charge / reset): no attribute is assigned.  Legitimate use of a copy; the real EV and its battery
+    must not notice."""
+    with warnings.catch_warnings():
+        warnings.simplefilter("ignore")
+        evs = iface.active_evs
+    for e in list(evs):
+        try:
+            e.charge(32.0, 240.0, 5.0)            # what-if: one period at 32 A
+            e.charge(8.0, 208.0, 90.0)
+            e._battery.charge(16.0, 208.0, 30.0)
+            e.reset()
+            e._battery.reset(0.0)
+            e._battery.charge(80.0, 240.0, 600.0)   # fills the (copied) battery
+            e.charge(6.0, 120.0, 1.0)
+            e.update_station_id("ZZ")
+        except Exception:  # noqa: BLE001
+            pass
+    return None
+
+
+def _vandalise(algo, iface, sessions, schedule, mode=None):
+    if mode == "methods":
+        return _vandalise_methods(iface)
     _vandalise_sessions(sessions)
     _vandalise_sessions(iface.active_sessions())
     try:
@@ -390,6 +438,10 @@ def _vandalise(algo, iface, sessions, schedule):
             e.charge(32.0, 240.0, 5.0)
             e.reset()
             e.charge(16.0, 208.0, 60.0)
+            e._battery.charge(12.0, 208.0, 15.0)
+            e._battery.reset()
+            e._battery.reset(0.0)
+            e._battery.charge(9.0, 240.0, 45.0)
             e._energy_delivered = 1e9
             e._current_charging_rate = -3.0
             e.arrival = -1
@@ -447,6 +499,41 @@ class GuardNet(S.SnapshotNetwork):
             raise Runaway(f"still running in period {len(self.occ_log)}")
         if self.on_period is not None:
             self.on_period(len(self.occ_log) - 1)      # one call per period since period 0: the period just charged
+
+
+_NET = {"occ": [], "limit": 10 ** 9, "on_period": None}
+
+
+class JGuardNet(ChargingNetwork):
+    """GuardNet WITHOUT instance attributes (log, limit and callback live in the module-level `_NET`), so that to_json /
+    from_json treat the object exactly like the plain class (an attribute the generic fallback dumps is never restored:
+    an artefact of the harness, DESIGN §14).  One simulation at a time."""
+
+    @property
+    def occ_log(self):
+        return _NET["occ"]
+
+    def post_charging_update(self):
+        _NET["occ"].append([(e.ev.session_id if e.ev is not None else None) for e in self._EVSEs.values()])
+        if len(_NET["occ"]) > _NET["limit"]:
+            raise Runaway(f"still running in period {len(_NET['occ'])}")
+        if _NET["on_period"] is not None:
+            _NET["on_period"](len(_NET["occ"]) - 1)
+
+
+def _net_set(net, key, value):
+    if isinstance(net, JGuardNet):
+        _NET[key] = value
+    else:
+        setattr(net, key, value)
+
+
+def _interrupt(case):
+    return case.get("interrupt") or None
+
+
+def _step_prefix(case):
+    return case.get("step_prefix") or None
 
 
 # ------------------------------------------------------------------ edits between invocations (case["net_edits"])
@@ -691,6 +778,11 @@ def staging_ok(case):
 
 def is_valid(case):
     """`Valid` of the theorems + C05's extra dimensions well-formed (ignored events not late, staging_ok)"""
+    if _step_prefix(case) and (_others(case) or _splits(case) or any(ts < 1 for ts in _known_ts(case))):
+        # step() processes the events of period t AFTER the trip of period t-1: a timestamp-0 event is processed late, at
+        # iteration 1 (SimStep.lean; not part of any property) — such prefixes are judged by the model and the same-moment
+        # ground truth only
+        return False
     return S.is_valid_layout(case) and all(int(o["t"]) >= 0 for o in _others(case)) and staging_ok(case)
 
 
@@ -725,10 +817,15 @@ def _build(case, hooks):
     return sim, {"network": net, "scheduler": algo, "evs": evs, "hooks": hooks}, staged[1:]
 
 
-def _one_run(case, vandal):
+def _one_run(case, vandal, plain=False):
+    """plain=True: the same case WITHOUT its interruptions (the uninterrupted twin of an interrupted case)"""
     views = []
     outside = []
     box = {}
+    intr = None if plain else _interrupt(case)
+    sp = _step_prefix(case)
+    special = bool(_interrupt(case) or sp)
+    mode = case.get("vandal")
 
     def rewound(f):
         # the vandal charges EV *copies*; with a noisy battery that calls numpy.random.normal, the
@@ -743,13 +840,14 @@ def _one_run(case, vandal):
         views.append(_record(algo, iface, sessions, box["sim"], box["ctx"]))
 
     def after(algo, iface, sessions, schedule):
-        r = rewound(lambda: _vandalise(algo, iface, sessions, schedule)) if vandal else None
+        r = rewound(lambda: _vandalise(algo, iface, sessions, schedule, mode)) if vandal else None
         # the same questions asked AGAIN before schedule() returns (after the vandal, if there is one)
         views[-1]["requery"] = _record(algo, iface, None, box["sim"], box["ctx"], light=True)
         return r
 
     def ask_outside(when):
-        """an Interface query made OUTSIDE schedule(): before run(), between two run()s, after the last one"""
+        """an Interface query made OUTSIDE schedule(): before run(), between two run()s, after the last one,
+        after a step() prefix, after an abort (and reload)"""
         sim = box["sim"]
         iface = sim.scheduler.interface
         try:
@@ -758,18 +856,23 @@ def _one_run(case, vandal):
                 sess = iface.active_sessions()
                 rec = _record(None, iface, sess, sim, box["ctx"])
                 if vandal:
-                    rewound(lambda: _vandalise(None, iface, sess, None))
+                    rewound(lambda: _vandalise(None, iface, sess, None, mode))
                 rec["requery"] = _record(None, iface, None, sim, box["ctx"], light=True)
         except Exception as e:  # noqa: BLE001  (malformed layouts: a SessionInfo guard)
             rec = {"error": S.err_name(e)}
         rec["when"] = when
         outside.append(rec)
 
-    hooks = S.Hooks(before=before, after=after, network_cls=GuardNet)
+    hooks = S.Hooks(before=before, after=after, network_cls=JGuardNet if special else GuardNet,
+                    fail_at=set(int(k) for k in intr["at"]) if intr else None)
+    _NET.update({"occ": [], "limit": 10 ** 9, "on_period": None})
+    interruptions = []
+    step_results = None
+    after_steps = None
     with S.noise_stream(case.get("noise", [])) as ns:
         box["ns"] = ns
         sim, ctx, later = _build(case, hooks)
-        ctx["network"].limit = _bound(case)
+        _net_set(ctx["network"], "limit", _bound(case))
         for c in case.get("extra_constraints", []):
             with warnings.catch_warnings():
                 warnings.simplefilter("ignore")
@@ -786,28 +889,95 @@ def _one_run(case, vandal):
         def apply_where(pred):
             hit = [(i, e) for i, e in edits if pred(e)]
             for i, e in hit:
-                _apply_entry(i, e, sim, ctx)
+                _apply_entry(i, e, box["sim"], box["ctx"])
             return bool(hit)
 
+        def reload():
+            """to_json() -> Simulator.from_json() -> update_scheduler(the SAME algorithm object); the signals (not
+            JSON-serialisable, documented: "can be set after the Simulator is loaded") are handed over as well"""
+            old, octx = box["sim"], box["ctx"]
+            with warnings.catch_warnings():
+                warnings.simplefilter("ignore")
+                new = Simulator.from_json(old.to_json())
+                new.update_scheduler(octx["scheduler"])
+            new.signals = old.signals
+            by = S._all_evs_of(new)
+            was = S._all_evs_of(old)
+            # (the EVs of events that are still WITHHELD for a later stage are not part of the simulator yet: they stay)
+            nctx = dict(octx, network=new.network, evs=[by.get(ev.session_id, ev) for ev in octx["evs"]])
+            box["sim"], box["ctx"] = new, nctx
+            lu = lambda x: None if x._last_schedule_update is None else int(x._last_schedule_update)  # noqa: E731
+            return {"same_object": new is old, "missing_evs": sorted(sid for sid in was if sid not in by),
+                    "iter": [int(old.iteration), int(new.iteration)], "resolve": [bool(old._resolve), bool(new._resolve)],
+                    "last_upd": [lu(old), lu(new)], "max_recompute": [old.max_recompute, new.max_recompute],
+                    "queue": [sorted(int(ts) for ts, _ in old.event_queue.queue), sorted(int(ts) for ts, _ in new.event_queue.queue)],
+                    "net_class": type(new.network).__name__}
+
+        pending_fail = set(hooks.fail_at)
+
+        def run_resumable():
+            """run(); after an INJECTED scheduler failure (Hooks.fail_at, each period once) the simulation is resumed:
+            run() again on the same object, or to_json -> from_json -> update_scheduler -> run()"""
+            while True:
+                cur = box["sim"]
+                e = S.run_sim(cur)
+                k = int(cur.iteration)
+                algo = box["ctx"]["scheduler"]
+                fired = (("hook", k) in algo.failed) if isinstance(algo, S.ScriptedAlgo) else (k in getattr(algo, "failed", ()))
+                if e != "SchedulerFailed" or k not in pending_fail or not fired or len(interruptions) > 2 * len(hooks.fail_at) + 2:
+                    return e
+                pending_fail.discard(k)
+                rec = {"t": k, "how": intr["how"], "resolve": bool(cur._resolve),
+                       "last_upd": None if cur._last_schedule_update is None else int(cur._last_schedule_update),
+                       "queue_empty": bool(cur.event_queue.empty()), "calls": list(algo.calls)}
+                if intr["how"] == "json":
+                    rec["reload"] = reload()
+                interruptions.append(rec)
+                ask_outside(f"abort:{len(interruptions) - 1}")
+
         if any(e["at"] == "hook" for _, e in edits):
-            ctx["network"].on_period = lambda p: apply_where(lambda e: e["at"] == "hook" and int(e["t"]) == p)
+            _net_set(ctx["network"], "on_period", lambda p: apply_where(lambda e: e["at"] == "hook" and int(e["t"]) == p))
         if case.get("pre_query"):
             ask_outside("pre")
         if apply_where(lambda e: e["at"] == "pre") and case.get("pre_query"):
             ask_outside("pre:edited")
-        err = S.run_sim(sim)
-        stops = [int(sim.iteration)]
+        err = None
+        if sp:
+            # a prefix driven by Simulator.step(): one call per schedule; stops at the first call that raises
+            step_results = []
+            for sch in sp["scheds"]:
+                try:
+                    with warnings.catch_warnings():
+                        warnings.simplefilter("ignore")
+                        done = box["sim"].step(S._sched_dict(sch))
+                    step_results.append([None, bool(done), int(box["sim"].iteration)])
+                except Exception as e:  # noqa: BLE001
+                    err = S.err_name(e)
+                    step_results.append([err, None, int(box["sim"].iteration)])
+                    break
+            if err is None:
+                cur = box["sim"]
+                after_steps = {"iter": int(cur.iteration), "resolve": bool(cur._resolve),
+                               "last_upd": None if cur._last_schedule_update is None else int(cur._last_schedule_update),
+                               "queue_empty": bool(cur.event_queue.empty())}
+                if sp.get("json"):
+                    after_steps["reload"] = reload()
+                ask_outside("steps")
+        if err is None:
+            err = run_resumable()
+        stops = [int(box["sim"].iteration)]
         for k, events in enumerate(later):
             if err is not None:
                 break
             ask_outside(f"between:{k}")
             if apply_where(lambda e: e["at"] == "stage" and int(e["k"]) == k):
                 ask_outside(f"between:{k}:edited")
-            sim.event_queue.add_events(events)
-            err = S.run_sim(sim)
-            stops.append(int(sim.iteration))
+            box["sim"].event_queue.add_events(events)
+            err = run_resumable()
+            stops.append(int(box["sim"].iteration))
         if err is None and (case.get("pre_query") or later):
             ask_outside("post")
+        sim, ctx = box["sim"], box["ctx"]
         obs = S.observe(sim, ctx, err)
         obs["noise_draws"] = ns["k"]
         obs["final_infra"] = _truth(sim, ctx)["infra"]
@@ -816,17 +986,24 @@ def _one_run(case, vandal):
     obs["views"] = views
     obs["outside"] = outside
     obs["stops"] = stops
+    if special:
+        obs["interruptions"] = interruptions
+        obs["step_results"] = step_results
+        obs["after_steps"] = after_steps
     return obs
 
 
 def run_impl(case):
     obs = _one_run(case, vandal=True)
+    if _interrupt(case):
+        # the UNINTERRUPTED twin of an interrupted case (clean scheduler): the completed simulation must be this one
+        obs["plain"] = _one_run(case, vandal=False, plain=True)
     if case.get("exhaustive"):
         # small-scope enumeration (invocation set, views): the clean twin is run for every 8th layout only
         if case["exhaustive"] % 8 == 0:
             obs["clean"] = _one_run(case, vandal=False)
         else:
-            obs["clean"] = {k: v for k, v in obs.items() if k != "clean"}
+            obs["clean"] = {k: v for k, v in obs.items() if k not in ("clean", "plain")}
         return obs
     obs["clean"] = _one_run(case, vandal=False)
     return obs
@@ -844,6 +1021,9 @@ def model_mode(case, obs=None):
                 `get_last_timestamp()` over the real queue, which the model does not carry)."""
     if not S.is_modelled(case):
         return None
+    if _interrupt(case) or _step_prefix(case):
+        # `Sim.runResume` / `Sim.stepsThenRun` (AcnModel/SimResume.lean): the plain queue, one stage
+        return "resume" if not _others(case) and not _splits(case) else None
     if not _others(case) and not _splits(case):
         return "sim"
     if obs is not None and obs.get("err") is not None:
@@ -859,6 +1039,10 @@ def model_request(case, obs=None):
     req = S.model_request(case)
     if req is not None and _others(case):
         req["ignored"] = [int(o["t"]) for o in _others(case)]
+    if req is not None and _interrupt(case):
+        req["fail_at"] = sorted(set(int(k) for k in _interrupt(case)["at"]))
+    if req is not None and _step_prefix(case):
+        req["steps"] = [S.sched_wire(x) for x in _step_prefix(case)["scheds"]]
     if req is not None:
         req["net"] = {"phases": [f2b(float(I.num(st.get("phase", 0)))) for st in case["stations"]],
                       "constraints": [{"current": [[k, f2b(float(I.num(v)))] for k, v in c["current"]],
@@ -893,12 +1077,27 @@ def _num(x):
 
 
 def compare(case, obs, model):
-    o2 = {k: v for k, v in obs.items() if k not in ("views", "clean", "final_infra", "outside", "stops")}
+    o2 = {k: v for k, v in obs.items() if k not in ("views", "clean", "final_infra", "outside", "stops", "plain", "interruptions",
+                                                    "after_steps")}
+    if obs.get("step_results") is None:
+        o2.pop("step_results", None)
     if _others(case):
         # the model's event_history / pending list hold the entries of the known types only (Sim.runI)
         o2["event_history"] = [e for e in obs["event_history"] if e[1] in KNOWN_TYPES]
         o2["pending"] = [e for e in obs["pending"] if e[1] in KNOWN_TYPES]
     diffs = S.compare(case, o2, model)
+    if _interrupt(case) or _step_prefix(case):
+        # the states the aborted run() calls left (C09: a JSON round trip is the identity on them) and the state the
+        # step() prefix left
+        ia = [[a["t"], a["resolve"], a["last_upd"], a["queue_empty"]] for a in obs.get("interruptions") or []]
+        ma = [[a["iter"], a["resolve"], a["last_upd"], a["queue_empty"]] for a in model.get("aborts", [])]
+        if ia != ma:
+            diffs.append(f"states left by the aborted run() calls [period, _resolve, _last_schedule_update, queue empty]: impl {ia} model {ma}")
+        if obs.get("after_steps") is not None:
+            x, y = obs["after_steps"], model.get("after_steps") or {}
+            for k in ("iter", "resolve", "last_upd", "queue_empty"):
+                if x[k] != y.get(k):
+                    diffs.append(f"state left by the step() prefix, {k}: impl {x[k]} model {y.get(k)}")
     mv = model.get("views", [])
     iv = obs["views"]
     if [v["t"] for v in iv] != [v["t"] for v in mv]:
@@ -1019,6 +1218,67 @@ def expected_invocations(case, horizon):
         if t in evs or (mr is not None and (last is None or t - last >= mr)):
             out.append(t)
             last = t
+    return out
+
+
+def reference_run(case):
+    """The property's rule, the resume rule and the step() contract evaluated on the event TIMESTAMPS alone (valid cases):
+      step(): a call made while events are left supplies its schedule for the current period t and advances to the next
+              period in which a recompute is due — the next period with an event of a type the simulator reacts to, or
+              t + 1 when max_recompute <= 1 — whose events it applies; it returns `no event left`;
+      run():  period by period while an event is left or a recompute is pending: the scheduler is invoked iff an event
+              occurred in the period (or was applied by the step() call that stopped there) or max_recompute periods have
+              elapsed since a schedule was last supplied (by step() or by an invocation), or none ever was; an invocation
+              in a period of `interrupt.at` raises (once): run() is called again and starts with that period.
+    Events of ignored types count for `an event is left` only."""
+    mr = case.get("max_recompute")
+    nst = len(_splits(case)) + 1
+    known = []
+    for x in case["sessions"]:
+        k = _stage_of(case, x["arrival"])
+        known += [(x["arrival"], k), (x["departure"], k)]
+    known += [(int(r), _stage_of(case, int(r))) for r in case.get("recomputes", [])]
+    other = [(int(o["t"]), _stage_of(case, int(o["t"]))) for o in _others(case)]
+    intr = _interrupt(case)
+    fail = set(int(k) for k in intr["at"]) if intr else set()
+    st = {"t": 0, "p": -10 ** 9, "resolve": False, "last": None}
+
+    def left(k):
+        return any(ts > st["p"] for ts, g in known + other if g <= k)
+
+    def pop(k):
+        new = [ts for ts, g in known if g <= k and st["p"] < ts <= st["t"]]
+        st["p"] = max(st["p"], st["t"])
+        return new
+
+    out = {"inv": [], "aborts": [], "stops": [], "steps": None, "supplied": []}
+    sp = _step_prefix(case)
+    if sp:
+        out["steps"] = []
+        for _ in sp["scheds"]:
+            if left(0):
+                a = st["t"]
+                nxt = min(ts for ts, g in known + other if ts > st["p"])
+                b = a + 1 if (mr is not None and mr <= 1) else max(nxt, a + 1)
+                out["supplied"] += list(range(a, b))
+                st["t"], st["last"] = b, b - 1
+                st["resolve"] = bool(pop(0))
+            out["steps"].append([None, not left(0), st["t"]])
+        out["after_steps"] = {"iter": st["t"], "resolve": st["resolve"], "queue_empty": not left(0)}
+    for k in range(nst):
+        while left(k) or st["resolve"]:
+            t = st["t"]
+            if pop(k):
+                st["resolve"] = True
+            if st["resolve"] or (mr is not None and (st["last"] is None or t - st["last"] >= mr)):
+                out["inv"].append(t)
+                if t in fail:
+                    fail.discard(t)
+                    out["aborts"].append({"t": t, "resolve": st["resolve"], "queue_empty": not left(k)})
+                    continue
+                st["last"], st["resolve"] = t, False
+            st["t"] = t + 1
+        out["stops"].append(st["t"])
     return out
 
 
@@ -1182,6 +1442,101 @@ def _requery_checks(case, v, exp_infra, fails, where=""):
         fails.append({"kind": "view_mismatch:infra", "detail": f"{where}period {t}: infrastructure_info() asked again {_short(rq['infra'])} network {_short(tr['infra'])}"})
 
 
+def _special_checks(case, obs, fails, inv, vts, inv1):
+    """interrupted / resumed runs and step() prefixes of VALID cases: the invocation list of the completed simulation, the
+    periods in which run() aborted, the state each abort (and each save / load) left, the step() contract"""
+    ref = reference_run(case)
+    intr, sp = _interrupt(case), _step_prefix(case)
+    tail = (f", interrupt {intr}" if intr else "") + (f", step() prefix of {len(sp['scheds'])} call(s)" + (" + JSON" if sp.get("json") else "") if sp else "") \
+        + (f", ignored-type events at {sorted(int(o['t']) for o in _others(case))}" if _others(case) else "") \
+        + (f", events from {_splits(case)} on added after the previous run() returned" if _splits(case) else "")
+    if sp:
+        if obs.get("step_results") != ref["steps"]:
+            fails.append({"kind": "step_contract", "detail": f"step() calls [error, returned flag, iteration after the call]: {obs.get('step_results')}, "
+                          f"contract (advance to the next period in which a recompute is due; return `no event left`): {ref['steps']}, "
+                          f"max_recompute={case.get('max_recompute')}, event periods {sorted(set(_known_ts(case)))}"})
+        a = obs.get("after_steps")
+        if a is not None and any(a[k] != ref["after_steps"][k] for k in ("iter", "resolve", "queue_empty")):
+            fails.append({"kind": "step_contract", "detail": f"state left by the step() prefix {a}, contract {ref['after_steps']} "
+                          f"(_resolve must be set iff the last call stopped in an event period)"})
+        if a is not None and a.get("reload"):
+            _reload_checks(a["reload"], fails, "after the step() prefix")
+    if obs["err"] is not None:
+        fails.append({"kind": "invocation_set", "detail": f"the simulation did not complete: {obs['err']} in period {obs['iter']}; invoked {inv}, required {ref['inv']}{tail}"})
+        return
+    if inv != ref["inv"] or obs["iter"] != (ref["stops"][-1] if ref["stops"] else 0):
+        fails.append({"kind": "invocation_set", "detail": f"invoked {inv} (final iteration {obs['iter']}), required {ref['inv']} (final iteration "
+                      f"{ref['stops'][-1] if ref['stops'] else 0}; a period in which run() was aborted by the scheduler is invoked again on resume, once), "
+                      f"max_recompute={case.get('max_recompute')}{tail}"})
+    if vts != inv:
+        fails.append({"kind": "invocation_set", "detail": f"schedule() entered in {vts}, scheduler.run() called in {inv}"})
+    if obs.get("stops") != ref["stops"]:
+        fails.append({"kind": "invocation_set", "detail": f"the (resumed) run() calls returned at iterations {obs.get('stops')}, expected {ref['stops']}{tail}"})
+    # the declarative form on the completed simulation: after the prefix, period t is an invocation period iff an event
+    # occurred in t or max_recompute periods have elapsed since a schedule was last supplied
+    h = ref["after_steps"]["iter"] if sp else 0
+    evs = set(_known_ts(case))
+    mr = case.get("max_recompute")
+    last = (h - 1) if (sp and ref["supplied"]) else None
+    want = []
+    for t in range(h, obs["iter"]):
+        if t in evs or (mr is not None and (last is None or t - last >= mr)):
+            want.append(t)
+            last = t
+    if inv1 != want and not _others(case):
+        fails.append({"kind": "invocation_set", "detail": f"invocation periods of the completed simulation {inv1} (from iteration {h} on), "
+                      f"rule: {want}, max_recompute={mr}{tail}"})
+    ab = obs.get("interruptions") or []
+    if [a["t"] for a in ab] != [a["t"] for a in ref["aborts"]]:
+        fails.append({"kind": "invocation_set", "detail": f"run() was aborted by the injected scheduler failure in {[a['t'] for a in ab]}, "
+                      f"the scheduler is required (hence raises) in {[a['t'] for a in ref['aborts']]}{tail}"})
+    for a, r in zip(ab, ref["aborts"]):
+        if a["resolve"] != r["resolve"]:
+            fails.append({"kind": "resume_state_lost", "detail": f"run() aborted in period {a['t']}: _resolve is {a['resolve']}, "
+                          f"an event {'occurred' if r['resolve'] else 'did not occur'} in that period and its recompute request is not answered yet"})
+        if a.get("reload"):
+            _reload_checks(a["reload"], fails, f"after the abort in period {a['t']}")
+    # the completed simulation is the UNINTERRUPTED one.  (Not judged here: run() aborted in a period in which the LAST
+    # queued event — of a type the simulator ignores, alone in its period — had just been popped: the queue is empty and no
+    # recompute is pending, so the second run() returns at once and that period is never simulated.  The reference above
+    # follows the code; observation reported to the maintainer, C09's quantifier is over the native event types.)
+    pl = obs.get("plain")
+    if pl is not None and ref["stops"] == _stage_horizons(case):
+        for k in ("err", "iter", "queue_empty", "pending", "resolve", "last_upd", "event_history", "ev_history", "occ_final", "occ",
+                  "pilots", "rates", "peak", "evs", "evse_pilot", "noise_draws", "final_infra", "edits_applied", "stops"):
+            if not _same(S_json(obs["clean"].get(k)), S_json(pl.get(k))):
+                fails.append({"kind": "resume_differs", "detail": f"{k}: interrupted and resumed {_short(obs['clean'].get(k))}, uninterrupted {_short(pl.get(k))}{tail}"})
+                break
+        strip = lambda v: {k: x for k, x in v.items() if k not in ("requery",)}  # noqa: E731
+        cv = [strip(v) for v in obs["clean"]["views"]]
+        cvt = [v["t"] for v in cv]
+        keep = [i for i in range(len(cv)) if not (cvt[i] in [a["t"] for a in ab] and i + 1 < len(cv) and cvt[i + 1] == cvt[i])]
+        for i in range(len(cv) - 1):
+            if i not in keep and not _same(S_json(cv[i]), S_json(cv[i + 1])):
+                fails.append({"kind": "resume_views_differ", "detail": f"period {cvt[i]}: the view of the failed call {_short(cv[i])} and of its repetition "
+                              f"on resume {_short(cv[i + 1])} differ"})
+                break
+        a1, a2 = [cv[i] for i in keep], [strip(v) for v in pl["views"]]
+        if not _same(S_json(a1), S_json(a2)):
+            k = next((i for i, (x, y) in enumerate(zip(a1, a2)) if not _same(S_json(x), S_json(y))), min(len(a1), len(a2)))
+            fails.append({"kind": "resume_views_differ", "detail": f"view #{k} of the interrupted and resumed run {_short(a1[k:k + 1])} differs from the "
+                          f"uninterrupted run's {_short(a2[k:k + 1])}{tail}"})
+
+
+def _reload_checks(r, fails, where):
+    """what to_json -> from_json -> update_scheduler must carry over for C05: the iteration, the pending recompute request
+    (`_resolve`), the period of the last schedule update (None = never), max_recompute, the queue, every session"""
+    if r["same_object"]:
+        fails.append({"kind": "resume_state_lost", "detail": f"{where}: from_json returned the dumped object itself"})
+    if r["missing_evs"]:
+        fails.append({"kind": "resume_state_lost", "detail": f"{where}: sessions {r['missing_evs']} are not reachable from the loaded simulator"})
+    for k in ("iter", "resolve", "last_upd", "max_recompute", "queue"):
+        if r[k][0] != r[k][1] or type(r[k][0]) is not type(r[k][1]):
+            fails.append({"kind": "resume_state_lost", "detail": f"{where}: {k} was {r[k][0]!r} when the simulator was written and is {r[k][1]!r} in the loaded one"})
+    if r.get("net_class") != "JGuardNet":
+        fails.append({"kind": "resume_state_lost", "detail": f"{where}: the loaded network is a {r.get('net_class')}"})
+
+
 def oracle(case, obs):
     fails = []
     views = obs["views"]
@@ -1193,17 +1548,37 @@ def oracle(case, obs):
     if obs["err"] == "Other:Runaway":
         return [{"kind": "run_does_not_terminate", "detail": f"run() still going in period {obs['iter']}; last timestamp of the scenario {_bound(case) - 6}; invoked {inv[:40]}"}]
 
-    # --- at most once per period, strictly increasing; every schedule() call belongs to a run() call
-    if any(b <= a for a, b in zip(inv, inv[1:])):
-        fails.append({"kind": "invoked_twice", "detail": f"scheduler.run() periods {inv}"})
-    if any(b <= a for a, b in zip(vts, vts[1:])) or any(t not in inv for t in vts):
-        fails.append({"kind": "invoked_twice", "detail": f"schedule() periods {vts}, run() periods {inv}"})
+    # --- at most once per period, strictly increasing; every schedule() call belongs to a run() call.  A period in which
+    #     the scheduler RAISED (injected failure) and the run was resumed is invoked again on resume: exactly once more.
+    special = bool(_interrupt(case) or _step_prefix(case))
+    aborted = [a["t"] for a in obs.get("interruptions") or []]
+
+    def dedup(lst):
+        """the list with ONE copy of every aborted period removed (the failed call, directly before its repetition)"""
+        out, drop = [], list(aborted)
+        i = 0
+        while i < len(lst):
+            if lst[i] in drop and i + 1 < len(lst) and lst[i + 1] == lst[i]:
+                drop.remove(lst[i])
+                i += 1
+                continue
+            out.append(lst[i])
+            i += 1
+        return out
+
+    inv1, vts1 = dedup(inv), dedup(vts)
+    if any(b <= a for a, b in zip(inv1, inv1[1:])):
+        fails.append({"kind": "invoked_twice", "detail": f"scheduler.run() periods {inv}" + (f" (run() aborted by the scheduler and resumed in {aborted})" if aborted else "")})
+    if any(b <= a for a, b in zip(vts1, vts1[1:])) or any(t not in inv for t in vts):
+        fails.append({"kind": "invoked_twice", "detail": f"schedule() periods {vts}, run() periods {inv}" + (f" (aborted and resumed in {aborted})" if aborted else "")})
 
     # --- the set of invocation periods (valid layouts; up to the period in which run() raised, if it did).
     #     Events of a type the simulator does not react to keep the loop going up to their timestamp and are
     #     recorded in event_history, but are no reason for an invocation; a history handed over in stages is
     #     the history of the same events handed over at once.
-    if valid:
+    if valid and special:
+        _special_checks(case, obs, fails, inv, vts, inv1)
+    elif valid:
         ts = [s["departure"] for s in case["sessions"]] + [int(r) for r in case.get("recomputes", [])] + [int(o["t"]) for o in _others(case)]
         full = (max(ts) + 1) if ts else 0
         if obs["err"] is None:
@@ -1258,10 +1633,21 @@ def oracle(case, obs):
         _view_checks(case, o, exp_at(o.get("edits")), fails, where=where, inside=False)
         _edit_checks(case, o, exp_at(o.get("edits")), fails, where=where)
         _requery_checks(case, o, exp_at(o.get("edits")), fails, where=where)
+        if o["when"].startswith(("steps", "abort")):
+            # asked after a step() prefix / after an abort (and reload), while EVs are connected: the same-moment ground
+            # truth above decides; the moment itself:
+            if valid and obs["err"] is None:
+                ref = reference_run(case)
+                want_t = ref["after_steps"]["iter"] if o["when"] == "steps" else \
+                    ([a["t"] for a in ref["aborts"]] + [None] * 9)[int(o["when"].split(":")[1])]
+                if o["t"] != want_t:
+                    fails.append({"kind": "view_mismatch:current_time", "detail": f"{where}current_time {o['t']}, expected {want_t}"})
+            continue
         if valid and obs["err"] is None:
             if o.get("edits", []) != expected_applied(case, o["when"]):
                 fails.append({"kind": "edit_history_not_applied", "detail": f"{where}the harness had applied the entries {o.get('edits')} of net_edits, "
                               f"the case schedules {expected_applied(case, o['when'])} before this query"})
+            hs = reference_run(case)["stops"] if special else hs
             want_t = 0 if o["when"].startswith("pre") else hs[-1] if o["when"] == "post" else hs[int(o["when"].split(":")[1])]
             if o["t"] != want_t:
                 fails.append({"kind": "view_mismatch:current_time", "detail": f"{where}current_time {o['t']}, expected {want_t}"})
@@ -1329,7 +1715,7 @@ def oracle(case, obs):
     # --- isolation: the vandalised run is the clean run
     keys = ("err", "iter", "queue_empty", "pending", "resolve", "last_upd", "event_history", "ev_history", "invoked",
             "occ_final", "occ", "pilots", "rates", "peak", "evs", "evse_pilot", "noise_draws", "final_infra",
-            "edits_applied", "edit_errors")
+            "edits_applied", "edit_errors", "interruptions", "step_results", "after_steps")
     for k in keys:
         if not _same(S_json(obs.get(k)), S_json(clean.get(k))):
             fails.append({"kind": "isolation_broken", "detail": f"{k}: with vandalism {_short(obs.get(k))} without {_short(clean.get(k))}"})
@@ -1462,7 +1848,78 @@ def corpus():
                     "recomputes": [], "period": 5, "max_recompute": mr, "noise": [], "sched": sched, "splits": [5],
                     "net_edits": [{"at": "stage", "k": 0, "kind": "limit_last", "ops": [{"op": "update", "name": "agg", "current": agg, "limit": 20.0}]},
                                   {"at": "hook", "t": 5, "kind": "limit_last", "ops": [{"op": "update", "name": "agg", "current": agg, "limit": 21.0}]}]})
+    # INTERRUPTED, SAVED AND RESUMED: the Lean example (session [1,6), recompute event at 9): the scheduler raises in an
+    # event period (1, 6), a timer period (3 with max_recompute 2 / 3), period 0 with nothing ever scheduled (max_recompute
+    # set: `_last_schedule_update` is None at the abort), a quiet period (2: never fires for None / 2), the LAST period (9);
+    # resumed in place and through JSON
+    for mr in (None, 1, 2, 3):
+        for at in ([1], [3], [0], [2], [9], [6, 9], [0, 1, 5]):
+            for how in ("rerun", "json"):
+                out.append({"stations": two, "constraint": {"limit": 64.0}, "sessions": [_s("x", "S0", 1, 6)], "recomputes": [9],
+                            "period": 5, "max_recompute": mr, "noise": [], "sched": sched, "interrupt": {"at": at, "how": how},
+                            "vandal": "methods" if (len(at) + (mr or 0)) % 2 else None})
+    # two sessions, a fully charged one, back-to-back reuse, an ignored-type event, a hook edit — interrupted in the
+    # period of the plug-in that follows an unplug on the same station, through JSON
+    out.append({"stations": two, "constraint": {"limit": 64.0},
+                "sessions": [_s("a", "S0", 0, 8, req=0.5), _s("b", "S0", 8, 11), _s("c", "S1", 2, 9, req=0.2)],
+                "recomputes": [4, 4, 12], "period": 5, "max_recompute": 3, "noise": [], "sched": sched,
+                "others": [{"t": 8, "kind": "sub", "when": "ctor"}], "interrupt": {"at": [8, 12], "how": "json"},
+                "net_edits": [{"at": "hook", "t": 5, "kind": "limit_last", "ops": [{"op": "update", "name": "agg", "current": agg, "limit": 24.0}]}]})
+    # DRIVEN BY step() FOR A PREFIX, then run(): 1-4 calls, with and without a JSON round trip in between, with an
+    # interruption of the run() that follows
+    st1 = [["S0", [8.0]], ["S1", [8.0]]]
+    for mr in (None, 1, 2, 3):
+        for n in (1, 2, 4):
+            for js in (False, True):
+                c = {"stations": two, "constraint": {"limit": 64.0}, "sessions": [_s("x", "S0", 1, 6), _s("y", "S1", 3, 8)], "recomputes": [11],
+                     "period": 5, "max_recompute": mr, "noise": [], "sched": sched,
+                     "step_prefix": {"scheds": [st1, [["S0", [16.0, 16.0]]], [], st1][:n], "json": js}}
+                if n == 2:
+                    c["interrupt"] = {"at": [6 if mr is None else 5], "how": "json" if js else "rerun"}
+                out.append(c)
     return out
+
+
+def _expected_plain(case):
+    """invocation periods of the case WITHOUT interruptions and step() prefix (valid layouts)"""
+    ts = _known_ts(case, with_others=True)
+    return expected_invocations(case, (max(ts) + 1) if ts else 0)
+
+
+def _add_interrupt(rng, case):
+    """the scheduler raises in 1-3 periods: mostly periods in which it is required (event periods, timer-only periods, period
+    0, the last period), some in which it is not (the failure never fires); resumed in place or through JSON"""
+    ts = _known_ts(case, with_others=True)
+    hi = max(ts + [2])
+    inv = _expected_plain(case) if S.is_valid_layout(case) else []
+    evs = set(_known_ts(case))
+    timer = [t for t in inv if t not in evs]
+    at = []
+    for _ in range(rng.choice([1, 1, 1, 2, 3])):
+        q = rng.random()
+        if q < 0.35 and evs:
+            at.append(rng.choice(sorted(t for t in evs if t >= 0) or [0]))
+        elif q < 0.6 and timer:
+            at.append(rng.choice(timer))
+        elif q < 0.7:
+            at.append(0)
+        elif q < 0.85 and inv:
+            at.append(inv[-1])
+        else:
+            at.append(rng.randint(0, hi))
+    case["interrupt"] = {"at": sorted(set(at)), "how": rng.choice(["rerun", "json"])}
+    return case
+
+
+def _add_step_prefix(rng, case):
+    """1-5 step() calls before run(); no timestamp-0 event in most cases (all events moved one period up)"""
+    if any(ts < 1 for ts in _known_ts(case, with_others=True)) and rng.random() < 0.85:
+        _shift_from(case, -10 ** 9, -1)
+        for e in case.get("sched", {}).get("script", []):
+            e["t"] += 1
+    n = rng.choice([1, 1, 2, 3, 5])
+    case["step_prefix"] = {"scheds": [S.gen_schedule(rng, case) for _ in range(n)], "json": rng.random() < 0.5}
+    return case
 
 
 def _add_others(rng, case):
@@ -1750,6 +2207,12 @@ def exhaustive():
                     import random as _random
                     kinds = EDIT_KINDS[4:]
                     c = _add_edits(_random.Random(k), c, kinds=["limit_last", kinds[(k // 4) % len(kinds)]])
+                if k % 7 == 0:        # every seventh: the scheduler raises in a cycling period; resumed in place / through JSON
+                    c["interrupt"] = {"at": sorted({(k // 7) % 8, (k // 56) % 8}), "how": "json" if (k // 7) % 2 else "rerun"}
+                elif k % 11 == 0 and "others" not in c and not any(x[1] == 0 for x in ss) and 0 not in c["recomputes"]:
+                    c["step_prefix"] = {"scheds": [[["S0", [8.0]]], [], [["S1", [8.0, 8.0]]]][:1 + (k // 11) % 3], "json": bool((k // 11) % 2)}
+                if k % 3 == 1:
+                    c["vandal"] = "methods"
                 out.append(c)
     return out
 
@@ -1864,8 +2327,14 @@ def generate(rng, n, tier):
             c = _stage(rng, c)
         elif r == 24 and not c.get("malformed"):
             c = _stage(rng, c, late=True)
+        if r in (3, 10, 15, 17) and not c.get("malformed") and not _others(c) and not _splits(c):
+            c = _add_step_prefix(rng, c)
         if r in (0, 3, 4, 8, 12, 15, 18, 19, 21):
             c = _add_edits(rng, c)          # LAST: the moments of the edits depend on the staging
+        if r in (1, 4, 6, 8, 10, 14, 20, 23) and c.get("malformed") in (None, "late"):
+            c = _add_interrupt(rng, c)
+        if r % 3 == 1:
+            c["vandal"] = "methods"
         out.append(c)
     return out
 
@@ -1995,6 +2464,42 @@ def features(case, obs):
         if len(obs.get("edits_applied", [])) < len(ed):
             f.append("edit_scheduled_after_the_run_ended")
         f = sorted(set(f))
+    intr, sp = _interrupt(case), _step_prefix(case)
+    if intr:
+        ab = obs.get("interruptions") or []
+        f.append(f"interrupt={intr['how']}")
+        f.append(f"interrupt_fired={min(len(ab), 3)}")
+        lastp = max(_known_ts(case, with_others=True) + [0])
+        for a in ab:
+            f.append("interrupt_in_event_period" if a["resolve"] else "interrupt_in_timer_period")
+            if a["last_upd"] is None:
+                f.append("interrupt_before_anything_was_scheduled")
+            if a["queue_empty"]:
+                f.append("interrupt_with_empty_queue")
+            if a["t"] >= lastp:
+                f.append("interrupt_in_last_period")
+        if len(ab) < len(intr["at"]):
+            f.append("interrupt_period_without_invocation")
+    if sp:
+        sr = obs.get("step_results") or []
+        f.append(f"step_prefix={min(len(sp['scheds']), 3)}")
+        f.append("step_prefix_json" if sp.get("json") else "step_prefix_in_place")
+        its = [0] + [r[2] for r in sr]
+        if any(b - a > 1 for a, b in zip(its, its[1:])):
+            f.append("step_call_advances_several_periods")
+        if any(b == a for a, b in zip(its, its[1:])):
+            f.append("step_call_on_empty_queue")
+        if any(r[1] for r in sr):
+            f.append("step_returns_done")
+        if any(r[0] for r in sr):
+            f.append("step_raises")
+        a = obs.get("after_steps")
+        if a:
+            f.append("run_after_steps_starts_with_" + ("pending_recompute" if a["resolve"] else "no_pending_recompute"))
+    if case.get("vandal"):
+        f.append(f"vandal={case['vandal']}")
+    if any(v.get("active_evs") for v in views):
+        f.append("active_evs_copies_handed_out")
     f.append(f"model={model_mode(case, obs)}")
     f.append(f"outside_queries={min(len(obs.get('outside', [])), 4)}")
     return sorted(set(f)) if oth else f
@@ -2012,12 +2517,21 @@ def shrink(case, kind):
     changed = True
     while changed:
         changed = False
-        for key in ("splits", "pre_query"):
+        for key in ("splits", "pre_query", "interrupt", "step_prefix", "vandal"):
             if cur.get(key):
                 c2 = copy.deepcopy(cur)
                 c2.pop(key)
                 if bad(c2):
                     cur, changed = c2, True
+        for key, sub in (("interrupt", "at"), ("step_prefix", "scheds")):
+            i = 0
+            while cur.get(key) and i < len(cur[key][sub]) and len(cur[key][sub]) > 1:
+                c2 = copy.deepcopy(cur)
+                del c2[key][sub][i]
+                if bad(c2):
+                    cur, changed = c2, True
+                else:
+                    i += 1
         for key in ("net_edits", "sessions", "recomputes", "others", "extra_constraints"):
             i = 0
             while i < len(cur.get(key, [])):
